@@ -85,7 +85,8 @@ def validate_schema(schema: GraphQLSchema) -> list[GraphQLError]:
         errors = context.errors
         schema._validation_errors = errors  # noqa: SLF001
 
-    return errors
+    # The cached list decides whether the schema is valid: never hand it out itself.
+    return list(errors)
 
 
 def assert_valid_schema(schema: GraphQLSchema) -> None:
